@@ -128,11 +128,29 @@ def c11_pipeline(rep, tier, seed, jit=False, scale=1.0, synthetic=True):
     env = nucs_env(jit=jit)
     nsc = int((150 if tier == "quick" else 1200) * scale)
     max_orders = int((8000 if tier == "quick" else 120000) * scale)
+    pre_failures = []
     with Scratch("mp") as tmp:
         scs = gen_scenarios(seed, nsc, None)
         outs = run_workers("mp_worker.py", [{"kind": "streams", "scenarios": scs[k::NCPU]} for k in range(NCPU) if scs[k::NCPU]],
                            env, tmp, timeout=1500)
         streams = {s["id"]: s for s in read_ndjson(outs)}
+        # the worker protocol the parent relies on: every worker's stream is its solutions followed by exactly one
+        # completion marker.  A real worker that ends without the marker leaves the parent waiting forever (the call
+        # never returns): that is a violation of C11, not a harness problem.
+        malformed = []
+        for sc in list(scs):
+            for w, ws in enumerate(streams[sc["id"]]["streams"]):
+                marks = [i for i, m in enumerate(ws) if m[1] is None]
+                if marks != [len(ws) - 1]:
+                    malformed.append((sc, w, len(ws), marks))
+                    break
+        for sc, w, n, marks in malformed:
+            scs.remove(sc)
+            pre_failures.append(("C11:worker-stream-is-not-solutions-then-one-completion-marker",
+                                 {"clause": "C11:worker-stream-is-not-solutions-then-one-completion-marker", "kind": "streams",
+                                  "mode": sc["mode"], "scenario": sc, "worker": w, "messages": n, "marker_positions": marks,
+                                  "gets": [], "streams": [[m[1] for m in ws] for ws in streams[sc["id"]]["streams"]],
+                                  "var": sc["var"], "sols": []}))
         if synthetic:
             syn, syn_streams = synthetic_scenarios(tier, base_id=100000)
             scs = scs + syn
@@ -211,7 +229,7 @@ def c11_pipeline(rep, tier, seed, jit=False, scale=1.0, synthetic=True):
         rep.cov["real_process_runs"] = nreal
         rep.cov["scenarios_total"] = len(scs)
         rep.cov["scenarios_with_all_orders"] = len(chosen)
-        failures = []
+        failures = list(pre_failures)
         seen = set()
         for rid, clause in verdicts:
             if (rid, clause) in seen:
